@@ -100,18 +100,17 @@ def generate(repo, ws, write_if_changed):
              dict(kind="trait", name="HeaderRequestExt"),
              dict(kind="impl", impl=r"impl HeaderRequestExt for HeaderRequest"),
          ]))
-    emit("in_memory_store_c20.rs", slice_file(repo, "node/src/store/in_memory_store.rs", [
-        dict(kind="struct", name="InMemoryStoreInner"),
-        dict(kind="fn", name="get_head_height", impl=r"^impl InMemoryStoreInner$", wrap="impl InMemoryStoreInner"),
-        dict(kind="fn", name="contains_hash", impl=r"^impl InMemoryStoreInner$", wrap="impl InMemoryStoreInner"),
-        dict(kind="fn", name="get_by_hash", impl=r"^impl InMemoryStoreInner$", wrap="impl InMemoryStoreInner"),
-        dict(kind="fn", name="contains_height", impl=r"^impl InMemoryStoreInner$", wrap="impl InMemoryStoreInner"),
-        dict(kind="fn", name="get_by_height", impl=r"^impl InMemoryStoreInner$", wrap="impl InMemoryStoreInner"),
-        dict(kind="fn", name="insert", impl=r"^impl InMemoryStoreInner$", wrap="impl InMemoryStoreInner"),
-        dict(kind="fn", name="verify_against_neighbours", impl=r"^impl InMemoryStoreInner$", wrap="impl InMemoryStoreInner"),
-        dict(kind="fn", name="mark_as_sampled", impl=r"^impl InMemoryStoreInner$", wrap="impl InMemoryStoreInner"),
-        dict(kind="fn", name="remove_height", impl=r"^impl InMemoryStoreInner$", wrap="impl InMemoryStoreInner"),
-    ]))
+    # every method of InMemoryStoreInner except the constructor and the two that use Vec<Cid>
+    # (discovered by name, so that a refactor introducing a helper method is still sliced completely)
+    ims_text = _read(repo, "node/src/store/in_memory_store.rs")
+    ims_skip = {"new", "update_sampling_metadata", "get_sampling_metadata"}
+    ims_methods = [m for m in sl.methods_of(ims_text, r"^impl InMemoryStoreInner$") if m not in ims_skip]
+    for need in ("insert", "verify_against_neighbours", "remove_height", "mark_as_sampled", "get_by_height", "get_by_hash"):
+        if need not in ims_methods:
+            raise sl.SliceError(f"InMemoryStoreInner::{need} not found")
+    emit("in_memory_store_c20.rs", slice_file(repo, "node/src/store/in_memory_store.rs",
+         [dict(kind="struct", name="InMemoryStoreInner")] +
+         [dict(kind="fn", name=m, impl=r"^impl InMemoryStoreInner$", wrap="impl InMemoryStoreInner") for m in ims_methods]))
     emit("extended_header_c02.rs", slice_file(repo, "types/src/extended_header.rs", [
         dict(kind="const", name="VERIFY_CLOCK_DRIFT"),
         dict(kind="fn", name="verify", impl=r"^impl ExtendedHeader$", wrap="impl ExtendedHeader"),
